@@ -115,8 +115,13 @@ def add_years(d, n):
     return dt.date(y, d.month, min(d.day, last) if d.month == 2 else d.day)
 
 
-def date_of(spec):
+# clocks of the two-compilations-in-one-process kernel: a month end, a leap day, a year end, a plain day
+DAYS = (TODAY, dt.date(2024, 2, 29), dt.date(2023, 12, 31), dt.date(2025, 3, 14))
+
+
+def date_of(spec, today=None):
     """absolute YYMMDD / YYYY-MM-DD, or [-]N(d|m|y) relative to TODAY; a leading minus means the past"""
+    TODAY = today or globals()["TODAY"]
     if len(spec) == 6 and spec.isdigit():
         return dt.date(2000 + int(spec[0:2]), int(spec[2:4]), int(spec[4:6]))
     if len(spec) == 10 and spec[4] == "-":
